@@ -68,6 +68,9 @@ def carrier_cases(rep):
                 # a label as the constant offset of an indexed operand (the address of a table plus a pointer register)
                 fl.append(("idx.const.label-offset", "V,Y", {"mode": "idx", "kind": "off", "reg": "Y", "off": "V", "ind": False}))
                 fl.append(("idx.const.label-offset", "[V,U]", {"mode": "idx", "kind": "off", "reg": "U", "off": "V", "ind": True}))
+                fl.append(("idx.const.label-offset", "V+1,X", {"mode": "idx", "kind": "off", "reg": "X", "off": "V+1", "ind": False}))
+                fl.append(("idx.const.label-offset", "[V-1,S]", {"mode": "idx", "kind": "off", "reg": "S", "off": "V-1", "ind": True}))
+                fl.append(("idx.const.label-offset", "2+V,U", {"mode": "idx", "kind": "off", "reg": "U", "off": "V+2", "ind": False}))
             for form, opnd, exp in fl:
                 if order == "label-before":
                     lines = [" ORG $%X\n" % v, "V NOP\n", " %s %s\n" % (rep, opnd)] + asmjudge.TAIL
@@ -150,6 +153,8 @@ def run_sym_case(case, ctx):
         for k in ("val", "addr", "off"):
             if exp.get(k) == "V":
                 exp[k] = addr
+            elif isinstance(exp.get(k), str) and exp[k].startswith("V") and addr is not None:
+                exp[k] = (addr + int(exp[k][1:])) % 65536
         c2 = dict(case, expect=exp)
     else:
         c2 = dict(case, expect=dict(case["expect"], val=0, addr=0, off=0))
